@@ -125,7 +125,7 @@ func genC15(t *rapid.T) *C15Case {
 	if caseVariant != "" {
 		c.Args = append([]string{caseVariant}, c.Args...)
 	}
-	if rapid.IntRange(0, 2).Draw(t, "nearMissCmd") == 0 {
+	if rapid.IntRange(0, 1).Draw(t, "nearMissCmd") == 0 {
 		// an unknown command word close to several command names (ties in the suggestion)
 		cur := &d.Root
 		var words []string
@@ -138,6 +138,14 @@ func genC15(t *rapid.T) *C15Case {
 				nm := []rune(rapid.SampledFrom(words0).Draw(t, "typoOf"))
 				i := rapid.IntRange(0, len(nm)-1).Draw(t, "typoAt")
 				nm[i] = rapid.SampledFrom([]rune("abdlmrstzhknp")).Draw(t, "typoRune")
+				// a word known to be equally close to two or three of the similar
+				// names, when such a family is in use
+				ties := map[string]string{"pull": "puxl", "start": "starx", "list": "lixt"}
+				for _, w0 := range words0 {
+					if tw, ok := ties[w0]; ok && rapid.Bool().Draw(t, "tieWord") {
+						nm = []rune(tw)
+					}
+				}
 				words = append(words, string(nm))
 				c.Args = words
 				break
